@@ -300,14 +300,11 @@ fn run_single_program(
                 libc::signal(libc::SIGQUIT, libc::SIG_DFL);
             }
 
-            // close pipes unrelated to current child (left side)
-            if idx_cmd > 0 {
-                for i in 0..idx_cmd - 1 {
-                    let fds = pipes[i];
-                    libs::close(fds.0);
-                    libs::close(fds.1);
-                }
-            }
+            // pipes on the left side of the previous one, and the write
+            // end of the previous one, were already closed by the parent
+            // before this fork. Their numbers may have been reused since
+            // (e.g. by the here-string pipe), so they must not be closed
+            // here again.
             // close pipes unrelated to current child (right side)
             for i in idx_cmd + 1..pipes_count {
                 let fds = pipes[i];
@@ -343,7 +340,6 @@ fn run_single_program(
                 let fds_prev = pipes[idx_cmd - 1];
                 libs::dup2(fds_prev.0, 0);
                 libs::close(fds_prev.0);
-                libs::close(fds_prev.1);
             }
             if idx_cmd < pipes_count {
                 let fds = pipes[idx_cmd];
